@@ -8,6 +8,16 @@ from .sensor import ChildSensor, Sensor
 
 _LOGGER = logging.getLogger(__name__)
 
+# Errors that a damaged (empty, truncated, zero-filled) file can raise on load.
+BAD_CONTENT_ERRORS = (
+    AttributeError,
+    EOFError,
+    ImportError,
+    IndexError,
+    ValueError,
+    pickle.UnpicklingError,
+)
+
 
 class Persistence:
     """Organize persistence file saving and loading."""
@@ -84,7 +94,7 @@ class Persistence:
         """Load sensors safely from file."""
         try:
             loaded = self._load_sensors()
-        except (EOFError, ValueError):
+        except BAD_CONTENT_ERRORS:
             _LOGGER.error("Bad file contents: %s", self.persistence_file)
             loaded = False
         if not loaded:
@@ -94,7 +104,7 @@ class Persistence:
                     _LOGGER.warning(
                         "Failed to load sensors from file: %s", self.persistence_file
                     )
-            except (EOFError, ValueError):
+            except BAD_CONTENT_ERRORS:
                 _LOGGER.error("Bad file contents: %s", self.persistence_file)
                 _LOGGER.warning("Removing file: %s", self.persistence_file)
                 os.remove(self.persistence_file)
